@@ -4,5 +4,6 @@ CONSTANTS
   WB = 7
   Mutant = "boundsceil"
   Wide = FALSE
+  Only = {"bounds"}
   LimbBits <- MCLimbBits
 INVARIANTS Sound DevOK Tight
